@@ -315,10 +315,10 @@ CHECKS = {
 EXTRA_TEXT = {
     "C02": "Edit histories on live objects (in-place walks; a pruned subtree grafted into several trees that all stay alive) are judged after every step against TLC's exact vectors - also the trees not edited in that step. The floor is applied by the property's letter (1e-100 of the exact peak product of the top-level clones' vectors, from TLC's polynomials); a table with a steep parent above two children, and stars / clones with 6-9 children (GridRec.tla evaluated by TLC) are included. On the FFT path: rows spanning more than 745 nats (B = 1e-400) must stay finite; grids of 1011 (thorough also 1201) points have an odd FFT length. Directed histories: every forest on 3 of 4 points, every clone's subtree re-attached below every other clone / at the top without a whole-tree refresh, then the fourth point added to and removed from every clone in place - every step against TLC's exact vectors.",
     "C03": "Further settings: samples whose likelihoods differ by 900 nats; every forest on 5 points also rebuilt by cutting a clone's subtree out and grafting a fresh one (same shape, or one clone) where it hung. Constructions edited after relabel_nodes (a data point moved in the relabelled copy) are judged as the forest they then represent. Trees holding outliers whose data points carry no outlier prior are judged too; forests with 6-9 children per node get their feature records from Density.tla (Starts) and their exact root vectors from GridRec.tla. Forests with clones of 130-260 data points are evaluated one after the other in one process (Density.tla Starts + GridRec.tla on flat data); both densities are also judged on a tree from which a subtree was removed AFTER an evaluation, and on its copy.",
-    "C04": "Single reassignments beyond these sizes: for deep forests on 4-5 points TLC (MoveRel.tla) gives the candidate set of a reassignment, the real DataPointSampler._sample_tree is run from every member with all outcomes enumerated, and the block must be invariant. A chain of 40 clones whose attachments are conditionally certain (every alternative < e^-100): 70 (thorough 150) prune-regraft calls must all return the start tree. The regraft block of PruneRegraphSampler is judged on bushy forests (a clone with several children, all attachment points enumerated) and one configuration uses a data point WITHOUT an outlier prior among points that have one.",
+    "C04": "Single reassignments beyond these sizes: for deep forests on 4-5 points TLC (MoveRel.tla) gives the candidate set of a reassignment, the real DataPointSampler._sample_tree is run from every member with all outcomes enumerated, and the block must be invariant. A chain of 40 clones whose attachments are conditionally certain (every alternative < e^-100): 70 (thorough 150) prune-regraft calls must all return the start tree. The regraft block of PruneRegraphSampler is judged on bushy forests (a clone with several children, all attachment points enumerated) and one configuration uses a data point WITHOUT an outlier prior among points that have one. Single reassignments are also started from trees that went through the two halves of a prune-regraft move (same forest, other graph positions, no whole-tree refresh).",
     "C05": "LossProb.tla (option resolution of run(), cluster-table column, truncal cluster, lost-cluster test with the exact law of distinct chromosomes, prior terms; all instances over 3 clusters x 2 samples x 128 option records model-checked) gives the prior of every cluster for 60+ harness instances (thorough 240+) driven through phyclone.run.run up to the end of load_data: each data point's two prior terms must be size x log p / size x log(1-p) for the probability the documented options and the cluster table resolve to; a differing truncal cluster alone is MODEL-DRIFT. A cluster file listing mutations the loader drops: every data point is the sum of its kept members' grids. Multi-sample files mix copy numbers, error rates, tumour contents and zero-depth samples (no reads in the first or the middle sample) per row. A deep row (3 variant reads of 2997; all-variant rows) is evaluated where naive mixtures underflow. A mutation whose copy-number state differs from sample to sample (states with more genotypes before states with fewer, and the reverse) must get each sample's own grid, for both densities.",
-    "C06": "Walks on data of magnitude 1e5 and histories on a 1000-point grid (FFT path; a fixed sibling history plus random walks) are snapshotted step by step and compared at the end with rebuilds made with cold memo tables. Dictionaries taken with to_dict() BEFORE in-place edits must still restore the earlier tree; recorded steps TLC does not match are re-validated as abstract forests and rejected ones are violations.",
-    "C07": "The recorded chains (incl. one event per single-point reassignment inside a data-point sweep) are validated by TLC against MoveRel.tla (TraceMoves.tla): every call receives the tree the previous step produced, every output is a forest over the same data (verdict), each reassignment / regraft / subtree update is a step of the move relations (diagnostic, MODEL-DRIFT). Every forest on 5 points is also rebuilt the way the subtree move builds trees (cut a clone's subtree, graft a fresh one of the same shape or one clone); the recorded entries of chains on nested-clone data with outliers are re-verified at the END of the run. Every outcome of the data-point move is projected on trees whose clone names have gaps (every forest on 5 points rebuilt by cut-and-graft): well-formed, same data, input untouched.",
+    "C06": "Walks on data of magnitude 1e5 and histories on a 1000-point grid (FFT path; a fixed sibling history plus random walks) are snapshotted step by step and compared at the end with rebuilds made with cold memo tables. Dictionaries taken with to_dict() BEFORE in-place edits must still restore the earlier tree; recorded steps TLC does not match are re-validated as abstract forests and rejected ones are violations. Directed histories with two live trees: a subtree is extracted while the host keeps it, one of the two is edited in place (data point added / removed, relabelled) and both are compared with fresh rebuilds.",
+    "C07": "The recorded chains (incl. one event per single-point reassignment inside a data-point sweep) are validated by TLC against MoveRel.tla (TraceMoves.tla): every call receives the tree the previous step produced, every output is a forest over the same data (verdict), each reassignment / regraft / subtree update is a step of the move relations (diagnostic, MODEL-DRIFT). Every forest on 5 points is also rebuilt the way the subtree move builds trees (cut a clone's subtree, graft a fresh one of the same shape or one clone); the recorded entries of chains on nested-clone data with outliers are re-verified at the END of the run. Every outcome of the data-point move is projected on trees whose clone names have gaps (every forest on 5 points rebuilt by cut-and-graft): well-formed, same data, input untouched. The samplers are also driven as a library (one kernel shared by the whole-tree and subtree samplers, no clearing of the proposal memo tables); chains with a time limit that is used up at once or after 3 ms; the extract-then-edit histories of C06 are judged for well-formedness.",
     "C01": "Recorded conditional-SMC swarms (incl. quantised particle weights) are validated by TLC against PGibbsSM.tla (TracePGibbs.tla): retained path, lineages, and the adaptive-resampling rule (resample iff relative ESS <= threshold; uniform weights afterwards) - diagnostic for this property. Configurations include three particles with resampling thresholds 0.75 and 0.9 (the adaptive decision really depends on the weights) and heavy two-sample data. The option handling of run() is bound too (LossProb.tla instances through run() up to the arguments of run_phyclone_chain): whenever the loaded data carry outlier priors the chain must be built with outlier proposals on.",
     "C09": "The order each sampler actually hands to its SMC pass (burn-in and particle Gibbs; the SMC classes replaced by a capturing stub) must have the same law. Large inputs go up to 2600 data points (clones and an outlier set of more than 1024 points); orders drawn on them are checked for compatibility. The subtree sampler's pass is included (orders grouped by the block the pass is conditioned on); every particle of a retained SMC path must carry -log(count) of the partial tree it holds (with and without outliers). Every particle a kernel PROPOSES (all parents incl. empty / outlier-only, all kernels, every outcome) must carry -log(count) of the tree it holds.",
     "C11": "Each worker re-writes the trace at the SAME path for every trace it handles (a long-lived driver): the commands must summarise what the file holds now.",
@@ -326,7 +326,7 @@ EXTRA_TEXT = {
     "C13": "In the recorded chains every particle of every final swarm must carry the fixed-root density of its tree under the concentration value current at that moment. One sampler object is called 3 000 times in sequence with (K, n) changing from call to call, each call continuing from the previous value: the probability integral transform with the exact one-step CDF must be uniform per (K, n) class. Concentration.tla also covers (K, n) = (172, 172), (200, 400), (500, 2000); for updates that draw from the generator directly both mixture components must be reachable there. The (K, n) extraction is repeated on data points built by the loader from a pre-clustered input (clusters of 1-3 mutations). The particle densities are judged under the value the CHAIN's distribution object holds (not the sampler's own reference to it).",
     "C14": "The real key objects of the two convolution memo tables are built for 2e5 (thorough 4e5) different grids: no two may agree (a collision is then demonstrated on the real cache). Edit-grammar histories (TreeADT actions as in-place walks) and prune-regrafts from chain-shaped trees run under the shadow wrappers; every candidate tree a proposal hands out (incl. the first SMC step, no parent) must carry the densities of its tree under the concentration value current at that moment. Parents holding the same clones under swapped labels are served one after the other without a clear: the same random outcomes must give the same trees as with cold caches. Random forests on 30 data points push both convolution memo tables far past their capacity (LRU evictions). Two successive draws from the memoised proposal of parents with 3-4 top-level clones are enumerated: the conditional law of the second draw (cache hit) given the first must equal the law of a cold object.",
     "C17": "Error rates vary per row within a copy-number state. Clustered inputs with per-cluster prior columns / --assign-loss-prob (instances of LossProb.tla incl. truncal ties and Monte-Carlo borderline cases) are loaded in 4 (thorough 6) row orders of both files, reversed and shuffled, with a fixed seed: identical data points required. Sample ids are purely numeric in a fifth of the tables (tab- and comma-separated). Inputs with twelve samples (more than the ten the loader prints in full) must give the same data in every row order. Every fourth table carries two annotation columns the loader does not use, with empty and NA cells.",
-    "C18": "Chains.tla also models the loader's draws on the parent stream before the chains exist and worker processes with process-global memo tables (a queued chain may start on a used worker: ColdStartPerChain). Real runs added: clustered input with --assign-loss-prob (1 and 2 chains), the loader under 6 hash seeds on borderline clustered inputs, a 3-chain run in which ONE worker process executes all chains (other workers' start-up delayed; which process ran which chain is recorded) against one process per chain (also 2 chains on six mutations, two seeds - few data points, so the memo tables are not flushed between chains). One chain on a 512-point grid is run twice with the first calls of the direct / of the FFT convolution routine slowed down (results untouched). Further groups: --seed 0 twice, a 36-mutation cluster; besides the trace bytes the stored data points are compared bit for bit.",
+    "C18": "Chains.tla also models the loader's draws on the parent stream before the chains exist and worker processes with process-global memo tables (a queued chain may start on a used worker: ColdStartPerChain). Real runs added: clustered input with --assign-loss-prob (1 and 2 chains), the loader under 6 hash seeds on borderline clustered inputs, a 3-chain run in which ONE worker process executes all chains (other workers' start-up delayed; which process ran which chain is recorded) against one process per chain (also 2 chains on six mutations, two seeds - few data points, so the memo tables are not flushed between chains). One chain on a 512-point grid is run twice with the first calls of the direct / of the FFT convolution routine slowed down (results untouched). Further groups: --seed 0 twice, a 36-mutation cluster; besides the trace bytes the stored data points are compared bit for bit. An input of 1200 mutations (with and without a 40-cluster file) is loaded in 4 (thorough 6) fresh processes, one confined to one core: order, names and grids of the data points must agree bit for bit.",
     "C08": "The permutation density a particle carries (part of the final target of every path) must be 1 / (number of compatible orders, from Perm.tla) for every forest on one more data point than the kernels are enumerated on.",
     "C10": "A crafted table with a lineage absent from one sample (CCF 0 there, children present in the other sample) is included; the values as WRITTEN by the map command and the topology archive on 128-, 64- and 150-point grids must be on the grid, feasible and prevalence-consistent (1e-12). A 301-point grid with optima beyond index 255 is checked against the directly evaluated definitional optimum of two 2-clone forests (TLC's oracle does not reach that grid size). Twelve samples S1..S12 stored in the loader's order: the values written for each sample must attain THAT sample's optimum (TLC).",
     "C15": "Trees of 8 clones from which a clade of three and more clones was cut or collapsed (several unused graph slots) and the cut subtrees go through all three serialisation routes. Data sets contain a duplicated data point (two points with identical values); the densities recorded in every trace entry are re-evaluated with cold memo tables.",
